@@ -1173,6 +1173,14 @@ class Interp:
                 lab = v.dims[k]
                 return Arr((), alg.count(lab), unit=num(1)) if lab else 1
             return Unk('shape index', e)
+        if isinstance(v, _SelIdx):
+            return v            # an element of selection-space positions is a selection-space position
+        if isinstance(v, _WhereIdx):
+            k = self.expr(e.slice, env, mod)
+            if isinstance(k, int) and not isinstance(k, bool) and k in (0, -1):
+                # first / last position at which the mask holds (IndexError when it holds nowhere)
+                return Arr((), alg.mk_fn('first' if k == 0 else 'last', B(v.mask.dims[0], v.mask.poly)), unit=num(1))
+            return Unk('element %r of the positions selected by a mask' % (k,), e)
         if not isinstance(v, Arr):
             return Unk('subscript of %r' % (v,), e)
         idx = e.slice.elts if isinstance(e.slice, ast.Tuple) else [e.slice]
@@ -1494,6 +1502,8 @@ class Interp:
                 return Unk('arange(%r)' % (n,), e)
             if last in ('where', 'nonzero') and len(args) == 1:
                 m_ = self._as_arr(args[0])
+                if isinstance(m_, Arr) and m_.ndim == 1 and _is_boolean(m_.poly) and m_.mask is not None:
+                    return (_SelIdx(m_.mask, m_.dims[0], 'nonzero'),)      # positions within the compressed selection
                 if isinstance(m_, Arr) and m_.ndim == 1 and _is_boolean(m_.poly):
                     return (_WhereIdx(m_),)
                 return Unk('np.where of %r' % (m_,), e)
@@ -1750,7 +1760,11 @@ class Interp:
                     return recv.with_(unit=None)
                 return recv.with_(unit=uu.poly)       # same physical quantity, expressed in unit uu
             if name == 'astype':
-                return recv.with_(dt=_dtype_kind(args[0] if args else kw.get('dtype'), None))
+                t_ = args[0] if args else kw.get('dtype')
+                tn = t_.name if isinstance(t_, Marker) else (t_.__name__ if isinstance(t_, type) else (t_ if isinstance(t_, str) else ''))
+                if tn.split('.')[-1] in ('bool', 'bool_') and not _is_boolean(recv.poly):
+                    return recv.with_(poly=alg.b_not(alg.mk_ind('==0', recv.poly)), unit=None, dt=None)       # x != 0
+                return recv.with_(dt=_dtype_kind(t_, None))
             if name == 'copy':
                 return recv.with_(dt=recv.dt if recv.dt in ('f', 'i') else 'inherit')
             if name in ('view', 'squeeze', 'decompose', 'filled'):
